@@ -9,6 +9,8 @@ import (
 	"os"
 	"path/filepath"
 	"runtime"
+	"runtime/debug"
+	"runtime/pprof"
 	"sort"
 	"strconv"
 	"strings"
@@ -30,6 +32,9 @@ const (
 )
 
 var (
+	profPath    string
+	devMaxPaths int64
+	devDeadline time.Duration
 	verifDir = envOr("VERIF_DIR", "/verif")
 	repoDir  = envOr("VERIF_REPO", "/repo")
 )
@@ -107,6 +112,23 @@ func load(patterns ...string) *loaded {
 	}
 	prog, spkgs := ssautil.AllPackages(pkgs, ssa.InstantiateGenerics)
 	prog.Build()
+	gcp := 400
+	if v, err := strconv.Atoi(os.Getenv("SYMGO_GOGC")); err == nil {
+		gcp = v
+	}
+	debug.SetGCPercent(gcp)
+	debug.SetMemoryLimit(40 << 30)
+	if os.Getenv("SYMGO_MEM") != "" {
+		var ms runtime.MemStats
+		runtime.ReadMemStats(&ms)
+		fmt.Fprintf(os.Stderr, "heap before dropping syntax: alloc=%dMB sys=%dMB\n", ms.HeapAlloc>>20, ms.Sys>>20)
+		for _, p := range pkgs {
+			p.Syntax, p.TypesInfo = nil, nil
+		}
+		runtime.GC()
+		runtime.ReadMemStats(&ms)
+		fmt.Fprintf(os.Stderr, "heap after GC: alloc=%dMB sys=%dMB\n", ms.HeapAlloc>>20, ms.Sys>>20)
+	}
 	l := &loaded{prog: prog, pkgs: map[string]*ssa.Package{}, took: time.Since(t0)}
 	for k, p := range spkgs {
 		if p != nil {
@@ -132,7 +154,11 @@ func main() {
 		only := fs.String("run", "", "only the run with this name")
 		noNative := fs.Bool("no-native", false, "skip native validation (development only; the verdict is then inconclusive)")
 		argsOverride := fs.String("args", "", "override harness args (development only)")
+		fs.Int64Var(&devMaxPaths, "maxpaths", 0, "stop after this many paths (development only; verdict inconclusive)")
+		fs.DurationVar(&devDeadline, "deadline", 0, "stop exploring after this long (verdict inconclusive)")
+		prof := fs.String("cpuprofile", "", "write a CPU profile")
 		fs.Parse(os.Args[2:])
+		profPath = *prof
 		if fs.NArg() < 2 {
 			fatal("usage: symgo check [flags] <id> quick|thorough")
 		}
@@ -142,7 +168,9 @@ func main() {
 				seed = v
 			}
 		}
-		os.Exit(check(fs.Arg(0), fs.Arg(1), seed, *workers, *verbose, *only, *noNative, *argsOverride))
+		code := check(fs.Arg(0), fs.Arg(1), seed, *workers, *verbose, *only, *noNative, *argsOverride)
+		pprof.StopCPUProfile()
+		os.Exit(code)
 	case "replay":
 		if len(os.Args) < 3 {
 			fatal("usage: symgo replay <file>")
